@@ -1317,7 +1317,12 @@ class Interp:
 
     def havoc_target(self, target: ast.expr, f: Frame) -> None:
         if isinstance(target, ast.Attribute):
-            obj = self.ev(target.value, f)
+            try:
+                obj = self.ev(target.value, f)
+            except PyRaise as e:
+                if issubclass(e.exc.cls, (IndexError, AttributeError, KeyError)):
+                    return  # the target does not exist in this shape: nothing to havoc
+                raise
             if not isinstance(obj, SObj):
                 raise Unsupported("modifies target is not an object field")
             cur = obj.fields.get(target.attr, UNBOUND)
